@@ -71,6 +71,30 @@ def run(ctx):
                 metas.append(("sweep|%s|N%d#%d,%d" % (name, nth, rep, k),
                               "omega2 sweep on %s Nthermo=%d at prefactor 1e%d" % (name, nth, k),
                               {"world": name, "data": base, "k": k}, True))
+    # ---- split sweep: only ONE of several symmetry-distinct exchange classes becomes fast (ratios 1e8..1e11 between
+    # exchange classes); measured agreement of the two algorithms there is 1e-12..6e-6 (k <= 11)
+    for name, chem, shell, nth in vw:
+        s = calc.vacancy(name, chem, shell, nth, rng)
+        if s.sizes["T2"] < 2:
+            continue
+        for rep in range(1 if quick else 3):
+            d = calc.vacancy_data(s, rng, 0, 2)
+            for cls in range(min(2, s.sizes["T2"])):
+                for k in (8, 9, 10, 11):
+                    p2 = np.array(d["preT2"], dtype=float)
+                    p2[cls] *= 10.0 ** k
+                    t = dict(d, preT2=p2)
+                    Ls, Ll = calc.Lij(s, t, large_om2=1e300), calc.Lij(s, t, large_om2=0.0)
+                    tens, asserts = {}, []
+                    for i, nm in enumerate(calc.NAMES4):
+                        tens[nm + "_std"], tens[nm + "_large"] = rel.to_latt(s.crys, Ls[i]), rel.to_latt(s.crys, Ll[i])
+                        asserts.append(rel.a_zero("agree_split@%s" % nm, [(1, nm + "_std"), (-1, nm + "_large")],
+                                                  5e-4 if name in ("polarrect", "rect2site", "tet2", "wurtzite") else 1e-4))
+                    cases.append(rel.make_case(s.w, tens, asserts, usegroup=False))
+                    metas.append(("split|%s|N%d#%d,%d,%d" % (name, nth, rep, cls, k),
+                                  "omega2 class %d of %s (Nthermo=%d) alone at prefactor 1e%d" % (cls, name, nth, k),
+                                  {"world": name, "class": cls, "k": k,
+                                   "data": {kk: np.asarray(v).tolist() for kk, v in d.items()}}, True))
     rel.run_rel(ctx, cases, metas, shards=8 if quick else 14)
     ctx.sample({"case": metas[0][0], "asserts": [a["name"] for a in cases[0]["asserts"]]})
     ctx.sample({"case": metas[-1][0], "asserts": [a["name"] for a in cases[-1]["asserts"]]})
